@@ -8,7 +8,7 @@ from util import call, quiet
 
 REQUIRED_THEOREMS = ['Usid.C08.indices_formula', 'Usid.C08.each_combination_once', 'Usid.C08.position_is_transpose',
                      'Usid.C08.written_slowest_first', 'Usid.C08.make_indices_matrix']
-RULE = ('[also: a generated matrix edited in place by its owner, then generated again] [also: the sequence of the caller re-read after the call and the same sequence written a second time] [also: values not increasing / not distinct; defaults relied upon, tuples, a bare Dimension / int, Dimension(int length), base_name, verbose, a nested parent; thorough: every size tuple (<= 3 dims) under all four flag combinations] [values handed over as float lists, python ints, int64 / int32 / uint8 / float32 arrays] tuples of dimension sizes (1..4 per dimension, up to 4 dimensions; thorough: ALL such tuples) with non-uniform '
+RULE = ('[also: sizes handed over as a uint8 array whose products overflow that type] [also: a generated matrix edited in place by its owner, then generated again] [also: the sequence of the caller re-read after the call and the same sequence written a second time] [also: values not increasing / not distinct; defaults relied upon, tuples, a bare Dimension / int, Dimension(int length), base_name, verbose, a nested parent; thorough: every size tuple (<= 3 dims) under all four flag combinations] [values handed over as float lists, python ints, int64 / int32 / uint8 / float32 arrays] tuples of dimension sizes (1..4 per dimension, up to 4 dimensions; thorough: ALL such tuples) with non-uniform '
         'dyadic values (quarters), labels/units with deliberate repeats, is_spectral in {F,T}, slow_to_fast in {F,T}; '
         'build_ind_val_matrices, make_indices_matrix and write_ind_val_dsets are run for real; non-trivial = at least two '
         'dimensions of size > 1')
@@ -100,6 +100,12 @@ def generate(seed, tier):
             sizes = rng.choice([[rng.randint(5, 129), 2], [7, 7, rng.choice([2, 3])], [rng.choice([49, 98, 103, 107]), 2],
                                 [rng.randint(5, 40), rng.randint(2, 6), 2]])
         cases.append(_case(rng, sizes))
+    # sizes handed over as a NARROW integer array whose running products do not fit that type (every size does)
+    for j in range({'quick': 4, 'search': 16}.get(tier, 4)):
+        rng = derived_rng(seed, 'C08n', j)
+        c = _case(rng, rng.choice([[16, 16, 2], [20, 20, 3], [17, 16, 2, 2], [30, 9, 2]]))
+        c.setdefault('form', {})['steps_as'] = rng.choice(['u1array', 'i1array' if False else 'u1array', 'u1array'])
+        cases.append(c)
     return cases
 
 
@@ -133,7 +139,8 @@ def run_impl(inp, work):
     else:
         out['build'] = {'err': r[1] if r[0] == 'err' else rp[1]}
     steps = [len(d['values']) for d in dims]
-    steps_arg = {'list': list, 'tuple': tuple, 'array': np.array}[form.get('steps_as', 'list')](steps)
+    steps_arg = {'list': list, 'tuple': tuple, 'array': np.array,
+                 'u1array': lambda v: np.array(v, dtype=np.uint8)}[form.get('steps_as', 'list')](steps)
     if form.get('bare') and len(steps) == 1:
         steps_arg = steps[0]
     r = call(make_indices_matrix, steps_arg, is_position=False)
